@@ -284,7 +284,7 @@ def main(prop):
                   "pickle round-trip of the index; tell()/seek()/readline() of text files and of pysam's BGZF reader (C17's interface): offsets are resolved to record ordinals by the harness"]
     ck.assumptions = ["valid rGFA; GAF records well-formed, over nodes of the graph; unique read names in generated files (records are identified by name)"]
     ck.canon = ["index offsets resolved to record ordinals; entries compared as sets (the property says 'contains')", "records identified by read name"]
-    mods = ["Gaftools.Props.C03", "Gaftools.Props.TieA", "Gaftools.Props.TieA13" if prop == "C03" else "Gaftools.Props.TieA15", "Gaftools.Props.Glue", "Gaftools.Props.Glue2", "Gaftools.Props.Reflect"] + (["Gaftools.Props.TieA2", "Gaftools.Props.TextLayer"] if prop == "C05" else [])
+    mods = ["Gaftools.Props.C03", "Gaftools.Props.TieA", "Gaftools.Props.TieA13" if prop == "C03" else "Gaftools.Props.TieA15", "Gaftools.Props.TieA27", "Gaftools.Props.Glue", "Gaftools.Props.Glue2", "Gaftools.Props.Reflect"] + (["Gaftools.Props.TieA2", "Gaftools.Props.TextLayer"] if prop == "C05" else [])
     from core import LEAN
     mods = [m for m in mods if os.path.exists(os.path.join(LEAN, *m.split(".")) + ".lean")]
     ck.lean_build(mods)
